@@ -314,3 +314,41 @@ func (l Layout) SubstSym(sym string, hasIdx bool, idx int64, repl Layout) (Layou
 	}
 	return out, true
 }
+
+// WriteBytes returns the layout of a `total`-byte big-endian buffer whose content was cur
+// after bytes [off, off+n) have been replaced by a value with layout src (an n-byte
+// big-endian value).
+func WriteBytes(cur Layout, total, off, n int64, src Layout) (Layout, bool) {
+	if off < 0 || n < 0 || off+n > total {
+		return nil, false
+	}
+	pos := 8 * (total - off - n) // bit position of the least significant written bit
+	low, ok1 := cur.Low(pos)
+	high, ok2 := cur.Shr(pos + 8*n)
+	if !ok1 || !ok2 {
+		return nil, false
+	}
+	var out Layout
+	out = append(out, low...)
+	lw, okl := low.DeclWidth()
+	if !okl {
+		return nil, false
+	}
+	if lw < pos {
+		out = append(out, Field{W: K(pos - lw)})
+	}
+	mid, ok3 := src.Low(8 * n)
+	if !ok3 {
+		return nil, false
+	}
+	out = append(out, mid...)
+	mw, okm := mid.DeclWidth()
+	if !okm {
+		return nil, false
+	}
+	if mw < 8*n {
+		out = append(out, Field{W: K(8*n - mw)})
+	}
+	out = append(out, high...)
+	return out.Norm(), true
+}
